@@ -275,6 +275,7 @@ static void c05_fixed(int shard, int nshards, long long stride, bool full, const
   }
 }
 
+static volatile long long g_sink05 = 0;
 template <typename ZI, typename PROC, typename MGR>
 static void c05_db(const ZI* const* reg, uint16_t n, int shard, int nshards, long long seed, const char* kind) {
   Rng rng(seed * 17 + shard);
@@ -308,6 +309,20 @@ static void c05_db(const ZI* const* reg, uint16_t n, int shard, int nshards, lon
         if (mid >= LO && mid < HI) c05_instant(nm.c_str(), plain, mid, nullptr);
         if (feb1 + off >= LO && feb1 + off < HI) { c05_instant(nm.c_str(), plain, feb1 + off, nullptr); c05_instant((nm + "(managed)").c_str(), managed, feb1 + off, nullptr); }
         CNT.add("conv.month_edge_after_adjacent_year", 2);
+      }
+    }
+    // "every valid instant" whatever was asked before, values outside the zone's data included: a valid instant, then an
+    // instant far outside the supported range (the result is an error value, as it should be), then the SAME valid instant
+    // and one of the same year again
+    static const int64_t kOutside[] = {-1262304000LL /*1960*/, -315619200LL /*1990*/, 1893456000LL /*2060*/, 2145916800LL /*2068*/};   // (the int32 edges are C09's)
+    for (int k = 0; k < 60; k++) {
+      int64_t t = rng.range(LO + 86400 * 40, HI - 86400 * 40), out = kOutside[rng.below(4)];
+      for (const TimeZone* z : {&plain, &managed}) {
+        c05_instant(nm.c_str(), *z, t, nullptr);
+        g_sink05 += ZonedDateTime::forEpochSeconds((acetime_t) out, *z).isError();
+        c05_instant(nm.c_str(), *z, t, nullptr);
+        c05_instant(nm.c_str(), *z, t + 86400 * 17 < HI && civil_from_seconds(t).y == civil_from_seconds(t + 86400 * 17).y ? t + 86400 * 17 : t - 86400 * 17, &others);
+        CNT.add("conv.valid_instant_after_out_of_range_query", 2);
       }
     }
     // transitions of the *targets* as well
